@@ -34,12 +34,39 @@ let method_of_name n =
   | Some m -> m
   | None -> failwith ("bad method " ^ n)
 
+let hay_of_sexp = function
+  | L [A "sb"; b] -> HSBool (bool_of_sym b)
+  | x -> HVal (pyval_of_sexp x)
+
+let lcand_of_sexp = function
+  | L [A "key"; A "none"; v] -> LKey (None, hay_of_sexp v)
+  | L [A "key"; b; v] -> LKey (Some (bool_of_sym b), hay_of_sexp v)
+  | L [A "attr"; v] -> LAttr (hay_of_sexp v)
+  | L [A "desc"; L ds] -> LDesc (List.map hay_of_sexp ds)
+  | x -> failwith ("bad list candidate " ^ to_string x)
+
+let nat_list_sexp (l : nat list) : t = L (List.map (fun n -> A ("i" ^ string_of_int (int_of_nat n))) l)
+
 let handle (cmd : string) (args : t list) : t option =
   match cmd, args with
   | "typed-value", [v; lt] ->
-    Some (outcome_sexp sexp_of_pyval (typed_value (lit_of_table (lit_table_of_sexp lt)) (pyval_of_sexp v)))
+    Some (outcome_sexp sexp_of_pyval (typed_value (lit_of_table (lit_table_of_sexp lt)) (hay_pyval (hay_of_sexp v))))
   | "search-matches", [A m; needle; hay; lt; rt] ->
     Some (outcome_sexp bs
-            (search_matches (lit_of_table (lit_table_of_sexp lt)) (re_of_table (re_table_of_sexp rt))
-               (method_of_name m) (str_atom needle) (pyval_of_sexp hay)))
+            (search_matches_h (lit_of_table (lit_table_of_sexp lt)) (re_of_table (re_table_of_sexp rt))
+               (method_of_name m) (str_atom needle) (hay_of_sexp hay)))
+  | "search-loop", [A kind; inv; A m; term; L cands; lt; rt] ->
+    let lit = lit_of_table (lit_table_of_sexp lt) and re = re_of_table (re_table_of_sexp rt) in
+    let inv = bool_of_sym inv and m = method_of_name m and term = str_atom term in
+    let one () = match cands with [v] -> hay_of_sexp v | _ -> failwith "expected one candidate" in
+    let r = match kind with
+      | "list" -> list_loop lit re inv m term (List.map lcand_of_sexp cands)
+      | "list-before-fix" -> list_loop_before_fix lit re inv m term (List.map lcand_of_sexp cands)
+      | "keys" -> keys_loop lit re inv m term (List.map hay_of_sexp cands)
+      | "set" -> set_loop lit re inv m term (List.map hay_of_sexp cands)
+      | "attr" -> attr_site lit re inv m term (one ())
+      | "self" -> self_site lit re inv m term (one ())
+      | "desc" -> desc_site lit re inv m term (List.map hay_of_sexp cands)
+      | _ -> failwith ("bad loop kind " ^ kind) in
+    Some (outcome_sexp nat_list_sexp r)
   | _ -> None
